@@ -668,6 +668,17 @@ def r26_14(ctx, rep):
         rep.ob(R, site, "`%s` decodes strictly" % norm(c)[:60], ok, "errors=%s hides undecodable bytes from the parser: the file is counted as good" % (norm(err) if err is not None else ""))
 
 
+@SPEC.rule(
+    "R26.17",
+    "each requested model is looked for among all files: the compiler tool iterates no one-shot iterator inside a loop it was created outside "
+    "of (a generator of candidate files made once in front of the loop over -m models is empty for the second model, which is then counted "
+    "as an error)",
+)
+def r26_17(ctx, rep):
+    from ._literal import no_reused_iterators
+    no_reused_iterators(ctx, rep, "R26.17", CLI, "the compiler tool", 3)
+
+
 # -- seeded variants ---------------------------------------------------------
 from ._mut import delete_stmt_where, replace_in_func  # noqa: E402
 
